@@ -171,13 +171,55 @@ def register(reg):
     c.ensure("depth", "out_file.bitsinfo.nbits == nbits_out")
     reg.add(c)
 
-    c = Contract(no_unfold=True, key=B + "Filterbank.downsample", props=["C20"],
+    # ---- downsample: block means over tfactor samples x ffactor channels of the selected input, reduced to the output depth;
+    #      complete groups only (the incomplete remainder of the selection is dropped once, at the end - never per block)
+    nco = "(nchans // ffactor)"
+    tdone = "((N if _k0 == bK else boff(_k0)) // tfactor)"
+    mean = ("(ssum2(XS(), nchans * (start + tfactor * T) + ffactor * c, nchans, ffactor, tfactor) / (tfactor * ffactor))")
+
+    def dcell(lhs):
+        return f"({lhs} == {mean} if self._header.nbits == 32 else {lhs} == cast_f4_u1({mean}))"
+
+    g0 = "(boff(_k0 - 1) // tfactor)"
+
+    def drows(n):
+        return (f"len(out_file.usamples) == {n} * {nco} and forall(T, 0, {n}, forall(c, 0, {nco}, "
+                + dcell(f"out_file.usamples[{nco} * T + c]") + "))")
+    c = Contract(no_unfold=True, key=B + "Filterbank.downsample", props=["C20", "C07"],
                  params=wparams(tfactor=Int(1), ffactor=Int(1)), lets=LETS,
                  cases={"self._header.nbits": [8, 32], "nsamps": [NoneV(None), IntV()]},
                  requires=RANGE, raises=[Raises("ValueError", when="self._header.nchans % ffactor != 0")])
-    c.loops["0:nsamps_r__ii_data"] = LoopSpec([("typestate", TYPESTATE.format(w="out_file"))])
+    c.loops["0:nsamps_r__ii_data"] = LoopSpec([
+        ("typestate", TYPESTATE.format(w="out_file")),
+        ("count", f"len(out_file.usamples) == {tdone} * {nco}"),
+        ("gulp is a whole number of groups", "gulp == tfactor * (gulp // tfactor) and gulp >= 1")],
+        body_hints=[("block offset in groups", "boff(_k0) == tfactor * (_k0 * (gulp // tfactor))"),
+                    ("block starts on a group boundary", "boff(_k0) // tfactor == _k0 * (gulp // tfactor)")],
+        end_hints=[("groups add up", "(boff(_k0 - 1) + bn(_k0 - 1)) // tfactor == "
+                                     "boff(_k0 - 1) // tfactor + bn(_k0 - 1) // tfactor"),
+                   ("next offset", "(N if _k0 == bK else boff(_k0)) == boff(_k0 - 1) + bn(_k0 - 1)"),
+                   ("groups done", "(N if _k0 == bK else boff(_k0)) // tfactor == "
+                                   "boff(_k0 - 1) // tfactor + bn(_k0 - 1) // tfactor"),
+                   ("block length", f"len(write_ar) == (bn(_k0 - 1) // tfactor) * {nco}"),
+                   ("distribute", f"(boff(_k0 - 1) // tfactor + bn(_k0 - 1) // tfactor) * {nco} == "
+                                  f"(boff(_k0 - 1) // tfactor) * {nco} + (bn(_k0 - 1) // tfactor) * {nco}")])
+    import os
+    if os.environ.get("PVC_DS_DATA"):
+        c.loops["0:nsamps_r__ii_data"].end_hints += [
+            ("index", f"forall(T, {g0}, {g0} + bn(_k0 - 1) // tfactor, forall(c, 0, {nco}, "
+                      f"nchans * (start + boff(_k0 - 1)) + nchans * tfactor * (T - {g0}) + ffactor * c == "
+                      "nchans * (start + tfactor * T) + ffactor * c))"),
+            ("kernel", f"forall(T, {g0}, {g0} + bn(_k0 - 1) // tfactor, forall(c, 0, {nco}, "
+                       f"write_ar[{nco} * (T - {g0}) + c] == {mean}))"),
+            ("appended", f"forall(T, {g0}, {g0} + bn(_k0 - 1) // tfactor, forall(c, 0, {nco}, "
+                         f"out_file.usamples[{nco} * T + c] == (write_ar[{nco} * (T - {g0}) + c] if "
+                         f"self._header.nbits == 32 else cast_f4_u1(write_ar[{nco} * (T - {g0}) + c]))))"),
+            ("prefix", f"forall(T, 0, {g0}, forall(c, 0, {nco}, " + dcell(f"out_file.usamples[{nco} * T + c]") + "))")]
+        c.loops["0:nsamps_r__ii_data"].invariants.append(("written", drows(tdone)))
+        c.ensure("data", drows("(N // tfactor)"))
     c.ensure("typestate", TYPESTATE.format(w="out_file"))
     c.ensure("depth", "out_file.bitsinfo.nbits == self._header.nbits")
+    c.ensure("count", f"len(out_file.usamples) == (N // tfactor) * {nco}")
     c.props.append("C08")
     c.ensure("hdr:time", "out_file.out_header.tsamp == self._header.tsamp * tfactor and out_file.out_header.tstart == self._header.tstart + start * self._header.tsamp / 86400")
     c.ensure("hdr:channels", "out_file.out_header.nchans == self._header.nchans // ffactor and out_file.out_header.nbits == self._header.nbits and "
